@@ -351,6 +351,9 @@ ARGS_LOOP:
 
 			// A token holding several unknown options (bundling) is passed through only once.
 			passedThrough := false
+			// The token being interpreted: an earlier letter of a bundle may have
+			// advanced the iterator to take its argument.
+			token := iterator.Value()
 
 			// iterate over the possible cli args and try matching against expectations
 			for _, p := range optPair {
@@ -364,17 +367,20 @@ ARGS_LOOP:
 
 				if len(optionMatches) == 0 {
 					if currentProgramNode.requireOrder {
-						storeRemainingAsText(iterator, currentProgramNode)
+						currentProgramNode.ChildText = append(currentProgramNode.ChildText, token)
+						if iterator.Next() {
+							storeRemainingAsText(iterator, currentProgramNode)
+						}
 						break ARGS_LOOP
 					}
 					// TODO: This shouldn't append new children but update existing ones and isOption needs to be able to check if the option expects a follow up argument.
-					opt := newUnknownCLIOption(currentProgramNode, p.Option, iterator.Value(), p.Args...)
+					opt := newUnknownCLIOption(currentProgramNode, p.Option, token, p.Args...)
 					currentProgramNode.UnknownOptions = append(currentProgramNode.UnknownOptions, opt)
 
 					switch currentProgramNode.unknownMode {
 					case Pass, Warn:
 						if !passedThrough {
-							currentProgramNode.ChildText = append(currentProgramNode.ChildText, iterator.Value())
+							currentProgramNode.ChildText = append(currentProgramNode.ChildText, token)
 							passedThrough = true
 						}
 					}
